@@ -328,6 +328,14 @@ pub fn is_view_op(op: &str) -> bool {
     )
 }
 
+thread_local! {
+    static LAST_PANIC: std::cell::RefCell<String> = std::cell::RefCell::new(String::new());
+}
+/// source location of the last panic on this thread (recorded by the hook of `quiet_panics`)
+pub fn last_panic_location() -> String {
+    LAST_PANIC.with(|l| l.borrow().clone())
+}
+
 pub fn quiet_panics() {
     if std::env::var("ICVERIF_PANIC_LOCATIONS").is_ok() {
         // one line per panic with its source location (diagnostics)
@@ -337,6 +345,11 @@ pub fn quiet_panics() {
             }
         }));
     } else {
-        std::panic::set_hook(Box::new(|_| {}));
+        std::panic::set_hook(Box::new(|info| {
+            if let Some(l) = info.location() {
+                let at = format!("{}:{}", l.file().rsplit('/').next().unwrap_or(""), l.line());
+                LAST_PANIC.with(|p| *p.borrow_mut() = at);
+            }
+        }));
     }
 }
